@@ -218,6 +218,11 @@ func Instantiate(rng *rand.Rand, t *tmplref.Template, md protoreflect.MessageDes
 				out.Segs = append(out.Segs, vals())
 			case tmplref.StarStar:
 				k := 1 + rng.Intn(3)
+				if rng.Intn(12) == 0 {
+					// long capture: the whole path ends up at 59..64 lexer
+					// tokens (the documented limit is 64) or just beyond it
+					k = 26 + rng.Intn(6)
+				}
 				for j := 0; j < k; j++ {
 					out.Segs = append(out.Segs, vals())
 				}
